@@ -250,12 +250,26 @@ func runC16(c *Ctx) {
 					}
 				}
 				loopStarted := false
-				for _, g := range withAnon(fn) {
+				ctxOK := false
+				for _, g := range c.region(fn) {
 					for _, s := range callsTo(g, r.FnLoop) {
 						loopStarted = true
-						if g == fn && !mustPrecedeOrUnreached(fn, call, s) {
+						s := s
+						if !mustPrecedeIP(s, func(x ssa.Instruction) bool { return x == ssa.Instruction(call) }, 0) && reachFromUp(call, func(x ssa.Instruction) bool { return x == ssa.Instruction(s) }, nil) == nil {
+							// the loop call neither follows the builder on every path nor is reachable from it: unrelated start
+							continue
+						}
+						if !mustPrecedeIP(s, func(x ssa.Instruction) bool { return x == ssa.Instruction(call) }, 0) {
 							okAll = false
 							c.bad("R16.2", construct, c.ipos(s), "the connection loop can start before the reverse client is installed")
+						}
+						// the context the loop runs under derives from the builder's result
+						for _, a := range s.Common().Args {
+							if isNamed(a.Type(), "context", "Context") && retCtx != nil {
+								if c.dependsOn(a, func(v ssa.Value) bool { return v == retCtx }, 0, map[ssa.Value]bool{}) {
+									ctxOK = true
+								}
+							}
 						}
 					}
 				}
@@ -263,33 +277,15 @@ func runC16(c *Ctx) {
 					okAll = false
 					c.bad("R16.2", construct, p.pos(fn.Pos()), "the connection loop is not started on this path")
 				}
-				// the context the loop runs under derives from the builder's result (when a builder is configured)
-				ctxOK := false
-				allInstrs(fn, func(in ssa.Instruction) {
-					if ci, ok := in.(*ssa.Call); ok && calleeName(ci) == "runtime/pprof.Do" && retCtx != nil {
-						var lv []ssa.Value
-						leaves(ci.Common().Args[0], map[ssa.Value]bool{}, &lv)
-						for _, l := range lv {
-							if l == retCtx {
+				// the loop may run inside pprof.Do(ctx, labels, func(ctx) { loop(ctx) }): then the context given to pprof.Do counts
+				for _, g := range c.region(fn) {
+					allInstrsRaw(g, func(in ssa.Instruction) {
+						if ci, ok := in.(*ssa.Call); ok && calleeName(ci) == "runtime/pprof.Do" && retCtx != nil {
+							if c.dependsOn(ci.Common().Args[0], func(v ssa.Value) bool { return v == retCtx }, 0, map[ssa.Value]bool{}) {
 								ctxOK = true
 							}
 						}
-					}
-				})
-				for _, g := range withAnon(fn) {
-					for _, s := range callsTo(g, r.FnLoop) {
-						for _, a := range s.Common().Args {
-							if isNamed(a.Type(), "context", "Context") && retCtx != nil {
-								var lv []ssa.Value
-								leaves(a, map[ssa.Value]bool{}, &lv)
-								for _, l := range lv {
-									if l == retCtx {
-										ctxOK = true
-									}
-								}
-							}
-						}
-					}
+					})
 				}
 				if !ctxOK {
 					okAll = false
